@@ -78,6 +78,9 @@ pub struct Placement {
     pub no_gitconfig: bool,
     /// pass the gitconfig with --config instead of $HOME/.gitconfig
     pub via_config_flag: bool,
+    /// feature lists are written with irregular whitespace (double blanks, leading/trailing blanks)
+    #[serde(default)]
+    pub sloppy_ws: bool,
     /// labels of the sources that were placed (for coverage accounting)
     pub sources: Vec<String>,
 }
@@ -262,6 +265,14 @@ fn section_text(name: Option<&str>, probe: &str, s: &Section) -> String {
     t
 }
 
+fn join_features(f: &[String], sloppy: bool) -> String {
+    if sloppy && !f.is_empty() {
+        format!(" {}  ", f.join("   "))
+    } else {
+        f.join(" ")
+    }
+}
+
 pub fn gitconfig_text(p: &Placement) -> String {
     let mut t = String::new();
     let main_empty = p.main.value.is_none() && p.main.features.is_none() && p.main.flags.is_empty();
@@ -302,7 +313,7 @@ pub fn to_spec(p: &Placement, hash_seed: u64) -> RunSpec {
     }
     if let Some(f) = &p.cli_features {
         args.push("--features".into());
-        args.push(f.join(" "));
+        args.push(join_features(f, p.sloppy_ws));
     }
     for b in &p.cli_flags {
         args.push(format!("--{}", b));
@@ -325,7 +336,7 @@ pub fn to_spec(p: &Placement, hash_seed: u64) -> RunSpec {
     args.push("--show-config".into());
     spec.args = args;
     if let Some((plus, f)) = &p.env_features {
-        spec.env.push(("DELTA_FEATURES".into(), format!("{}{}", if *plus { "+" } else { "" }, f.join(" "))));
+        spec.env.push(("DELTA_FEATURES".into(), format!("{}{}", if *plus { "+" } else { "" }, join_features(f, p.sloppy_ws && (*plus || !f.is_empty())))));
     }
     let mut params = Vec::new();
     if let Some(v) = &p.envparam_value {
@@ -382,6 +393,8 @@ pub const SOURCE_KINDS: &[&str] = &[
     "repeat-mention-other-list",
     "repeat-mention-as-child",
     "builtin-named-section-with-child",
+    "empty-cli-features",
+    "plus-only-env-features",
 ];
 
 struct Builder<'a> {
@@ -574,6 +587,20 @@ impl<'a> Builder<'a> {
                     }
                 }
             }
+            "empty-cli-features" => {
+                // `--features ''`: given, but names nothing (still replaces delta.features of the main section)
+                if self.p.cli_features.is_some() {
+                    return false;
+                }
+                self.p.cli_features = Some(vec![]);
+            }
+            "plus-only-env-features" => {
+                // DELTA_FEATURES='+': "go back to just the features from git config"
+                if self.p.env_features.is_some() {
+                    return false;
+                }
+                self.p.env_features = Some((true, vec![]));
+            }
             "builtin-named-section-with-child" => {
                 // [delta "<builtin>"] is also a custom section: features it enables count, even when
                 // the builtin itself was already enabled at higher priority by something else
@@ -701,6 +728,7 @@ pub fn gen_placement(seed: u64, idx: usize) -> Placement {
         }
         b.p.no_gitconfig = rng.chance(1, 12);
         b.p.via_config_flag = rng.chance(1, 4);
+        b.p.sloppy_ws = rng.chance(1, 5);
         if sane(&b.p) {
             return b.p;
         }
@@ -708,13 +736,18 @@ pub fn gen_placement(seed: u64, idx: usize) -> Placement {
 }
 
 /// Systematic core: every single source kind and every unordered pair of kinds, for every probe.
-pub fn lattice(seed: u64) -> Vec<Placement> {
+pub fn lattice(seed: u64, both_orders: bool) -> Vec<Placement> {
     let mut out = Vec::new();
     let mut n = 0u64;
     for probe in PROBES {
         for (i, a) in SOURCE_KINDS.iter().enumerate() {
             for bk in SOURCE_KINDS[i..].iter() {
                 for rep in 0..2u64 {
+                    // one construction order per (pair, probe), alternating; both orders in the thorough tier
+                    if !both_orders && rep != (n / 2 + probe.name.len() as u64) % 2 {
+                        n += 1;
+                        continue;
+                    }
                     n += 1;
                     let mut rng = Rng::new(mix(seed, &[tag("C13"), tag("lattice"), n]));
                     let mut b = Builder::new(probe);
@@ -950,8 +983,8 @@ pub fn main_c13(env: &Env, tier: &str, seed: u64, replay: Option<&str>) -> i32 {
             }
         };
     }
-    let (n_random, n_hash) = if tier == "thorough" { (40000, 12) } else { (1500, 3) };
-    let mut placements = lattice(seed);
+    let (n_random, n_hash) = if tier == "thorough" { (40000, 12) } else { (1500, 2) };
+    let mut placements = lattice(seed, tier == "thorough");
     let n_lattice = placements.len();
     for i in 0..n_random {
         placements.push(gen_placement(seed, i));
@@ -1025,7 +1058,7 @@ pub fn main_c13(env: &Env, tier: &str, seed: u64, replay: Option<&str>) -> i32 {
     }
     ev.evaluations = runs;
     ev.distinct_nontrivial = distinct.len() as u64;
-    ev.rule = "one evaluation = one `delta ... --show-config` execution of the real binary with a generated gitconfig/args/environment under one hash seed; a placement sets one probe option from 1-5 sources drawn from 22 source kinds; the lattice part enumerates every single kind and every unordered pair of kinds for each of 11 probe options (both construction orders) plus --no-gitconfig against every kind; the rest is seeded sampling. distinct_nontrivial counts distinct placements (every placement has at least one source, i.e. something for precedence to decide).".into();
+    ev.rule = "one evaluation = one `delta ... --show-config` execution of the real binary with a generated gitconfig/args/environment under one hash seed; a placement sets one probe option from 1-5 sources drawn from 24 source kinds; the lattice part enumerates every single kind and every unordered pair of kinds for each of 11 probe options (both construction orders) plus --no-gitconfig against every kind; the rest is seeded sampling. distinct_nontrivial counts distinct placements (every placement has at least one source, i.e. something for precedence to decide).".into();
     ev.counters.insert("placements".into(), placements.len() as u64);
     ev.counters.insert("lattice_placements".into(), n_lattice as u64);
     ev.counters.insert("hash_seeds_per_placement".into(), (hash_seeds.len() + 1) as u64);
